@@ -18,7 +18,7 @@ MANIFEST = dict(
          "for eight seeded model deviations (anti-vacuity). TLC then enumerates every event history of the bounded instances and "
          "the full matrix of optional webhook fields, with what must run after each event; each is executed on the REAL "
          "composite and decorator Metacontroller.Reconcile (controller-runtime fake client for the controller objects and CRDs; "
-         "real discovery, dynamic clients, shared informer factory, hosted controllers with a real worker, real webhook "
+         "real discovery, dynamic clients, shared informer factory, hosted controllers with 2 real workers, real webhook "
          "executors against an in-process hook server; parents and children pre-existing in the simulated API server; after "
          "each event a poke of every parent and a barrier). The recorded observations are validated by TLC against "
          "spec/TraceLifecycle.tla, which evaluates the SAME clause definitions as monitors and computes the signature of a hit "
@@ -36,6 +36,9 @@ ASSUMPTIONS = [
     "E8 watch events are delivered in order (simulated API server, harness/verifsim); a closed informer is seen by the server as a closed WATCH stream",
     "controller objects and parent CRDs are served by controller-runtime's fake client; Reconcile is called once after every event, "
     "as controller-runtime does (a panic is recovered by the driver as controller-runtime's RecoverPanic default does)",
+    "hosted controllers run 2 workers (VERIF_C20_WORKERS overrides); before /repo commit 1bfd7df (mutex around the customize "
+    "manager's related-informers map) two workers could subscribe twice to a related resource or crash on concurrent map writes "
+    "-- C17's subject -- which made replays of customize configurations non-deterministic",
     "bounds: 1-2 controller names (different parent resources, shared child resources), palette of 10 configurations with 49 "
     "alternatives, histories of 4 (quick) / 5 (thorough) events, every combination of the optional webhook fields "
     "(url, service, path, port, protocol, timeout, etag.*, responseUnMarshallMode) in one fixed history",
@@ -83,6 +86,13 @@ def _finish(scr, scenarios, traces, crashes, tlc_runs, states, trans, exhaustive
     sigs = {}
     for h in hits:
         sigs[h["sig"]] = sigs.get(h["sig"], 0) + 1
+    # one hit per (signature, clause) first: the verdict lines (capped) then show every kind of hit
+    first, rest, seen = [], [], set()
+    for h in sorted(hits, key=lambda h: (h["sc"], h["i"])):
+        k = (h["sig"], h["name"])
+        (rest if k in seen else first).append(h)
+        seen.add(k)
+    hits = first + rest
     extra.update({"trace_lines": stats["lines"], "unsettled_lines": stats["unsettled"], "scenarios_run": stats["scenarios"],
                   "scenarios_given": len(scenarios), "events_by_type": stats["events"], "instances_started": stats["starts"],
                   "instances_stopped": stats["stops"], "reconcile_panics": stats["panics"], "hook_calls": stats["hook_calls"],
